@@ -30,6 +30,16 @@ impl<K: Hash + Eq> AccessBatcher<K> {
     }
   }
 
+  /// Verification hook: the addresses of every stripe mutex (both instances).
+  #[cfg(excsn_fibre_verif)]
+  pub(crate) fn verif_stripe_addrs(&self) -> Vec<usize> {
+    self
+      .instances
+      .iter()
+      .flat_map(|inst| inst.iter().map(|m| m as *const _ as usize))
+      .collect()
+  }
+
   /// Records an access event, blocking on the stripe lock. Called from the
   /// sync `get` hot path. Accepts a pre-computed hash and only clones the
   /// key if it is not already batched.
